@@ -329,15 +329,18 @@ func runC18(c *an.Ctx) {
 			if !isFor {
 				return true
 			}
-			hdr := strings.ReplaceAll(an.StmtStr(fs.Init)+";"+an.Str(fs.Cond)+";"+an.StmtStr(fs.Post), " ", "")
-			if hdr != "i:=0;i<a.NumOfArguments();i++" {
-				why = "ParseInto's loop is `for " + hdr + "`, not over every index 0 ≤ i < NumOfArguments()"
+			// for v := 0; v < <recv>.NumOfArguments(); v++  (the bound may be held in a local)
+			v, bound, isCounting := countingLoop(f, fs)
+			if !isCounting || bound != "$r.NumOfArguments()" {
+				why = "ParseInto's loop is `for " + strings.ReplaceAll(an.StmtStr(fs.Init)+";"+an.Str(fs.Cond)+";"+an.StmtStr(fs.Post), " ", "") + "`, not over every index 0 ≤ i < NumOfArguments()"
 				return true
 			}
 			uses := false
 			ast.Inspect(fs.Body, func(m ast.Node) bool {
-				if call, isCall := m.(*ast.CallExpr); isCall && an.CalleeName(f.Info(), call) == "(*jet.Arguments).Get" && an.Str(call.Args[0]) == "i" {
-					uses = true
+				if call, isCall := m.(*ast.CallExpr); isCall && an.CalleeName(f.Info(), call) == "(*jet.Arguments).Get" {
+					if id, isId := an.Unparen(call.Args[0]).(*ast.Ident); isId && an.ObjOf(f.Info(), id) == v {
+						uses = true
+					}
 				}
 				return true
 			})
@@ -351,9 +354,18 @@ func runC18(c *an.Ctx) {
 		// fewer pointers than arguments → error before the loop
 		short := false
 		if len(f.Body.List) > 0 {
-			if is, isIf := f.Body.List[0].(*ast.IfStmt); isIf && strings.ReplaceAll(an.Str(is.Cond), " ", "") == "len(ptrs)<a.NumOfArguments()" {
-				if ret, isRet := is.Body.List[len(is.Body.List)-1].(*ast.ReturnStmt); isRet && an.Str(ret.Results[0]) != "nil" {
-					short = true
+			for _, st := range f.Body.List {
+				is, isIf := st.(*ast.IfStmt)
+				if !isIf {
+					if _, isFor := st.(*ast.ForStmt); isFor {
+						break
+					}
+					continue
+				}
+				if b, isBin := an.Unparen(is.Cond).(*ast.BinaryExpr); isBin && b.Op == token.LSS && an.Norm(f, b.X) == "len($p0)" && an.Norm(f, b.Y) == "$r.NumOfArguments()" {
+					if ret, isRet := is.Body.List[len(is.Body.List)-1].(*ast.ReturnStmt); isRet && an.Str(ret.Results[0]) != "nil" {
+						short = true
+					}
 				}
 			}
 		}
@@ -393,4 +405,34 @@ func runC18(c *an.Ctx) {
 
 func errorIface() *types.Interface {
 	return types.Universe.Lookup("error").Type().Underlying().(*types.Interface)
+}
+
+// countingLoop recognises `for v := 0; v < B; v++` and returns v and the normal form of B (locals
+// resolved to their definitions, receiver as $r).
+func countingLoop(f *an.Fn, fs *ast.ForStmt) (types.Object, string, bool) {
+	info := f.Info()
+	init, ok := fs.Init.(*ast.AssignStmt)
+	if !ok || len(init.Lhs) != 1 || len(init.Rhs) != 1 || an.Str(init.Rhs[0]) != "0" {
+		return nil, "", false
+	}
+	id, ok := init.Lhs[0].(*ast.Ident)
+	if !ok {
+		return nil, "", false
+	}
+	v := an.ObjOf(info, id)
+	cond, ok := an.Unparen(fs.Cond).(*ast.BinaryExpr)
+	if !ok || cond.Op != token.LSS {
+		return nil, "", false
+	}
+	if cid, ok := an.Unparen(cond.X).(*ast.Ident); !ok || an.ObjOf(info, cid) != v {
+		return nil, "", false
+	}
+	post, ok := fs.Post.(*ast.IncDecStmt)
+	if !ok || post.Tok != token.INC {
+		return nil, "", false
+	}
+	if pid, ok := an.Unparen(post.X).(*ast.Ident); !ok || an.ObjOf(info, pid) != v {
+		return nil, "", false
+	}
+	return v, an.Norm(f, cond.Y), true
 }
